@@ -261,7 +261,13 @@ impl<T: RealNumber + ScalarOperand + AddAssign + SubAssign + MulAssign + DivAssi
     }
 
     fn dot(&self, other: &Self) -> T {
-        self.dot(&other.view().reversed_axes())[[0, 0]]
+        if (self.nrows() != 1 && self.ncols() != 1) || (other.nrows() != 1 && other.ncols() != 1) {
+            panic!("A and B should both be either a row or a column vector.");
+        }
+        if self.len() != other.len() {
+            panic!("A and B should have the same size");
+        }
+        self.iter().zip(other.iter()).map(|(a, b)| *a * *b).sum()
     }
 
     fn slice(&self, rows: Range<usize>, cols: Range<usize>) -> Self {
